@@ -7,7 +7,8 @@
     rejection of malformed text, and that the Go builder does what Model/Front.v and Reader/FileBridge.v say
     it does, are decided by the correspondence run. *)
 From PegV Require Import Base.Tac Spec.Syntax Spec.Peg Proofs.PegRel Model.Calls Model.Front Proofs.FrontProofs
-  Generated.PegPeg Reader.Base Reader.Lex Reader.Chars Reader.Lits Reader.Expr Reader.Bridge Reader.File Reader.FileBridge Reader.Top.
+  Generated.PegPeg Reader.Base Reader.Lex Reader.Chars Reader.Lits Reader.Expr Reader.Bridge Reader.File Reader.FileBridge Reader.Top Reader.Shipped.
+From PegV Require Import Model.Machine Model.Gen Proofs.OptSound Proofs.Top.
 Open Scope Z_scope.
 
 (** For every surface expression without empty literals / classes / lists, the builder calls peg.peg's
@@ -82,6 +83,22 @@ Theorem C10_reader_file :
     file_nodes nm ak f = Some nodes.
 Proof. exact reader_file. Qed.
 Print Assumptions C10_reader_file.
+
+(** ... and for the parser that is shipped: the machine (Model/Machine.v, the model of the generated Go code that
+    C01-C06 tie to the implementation) of the -inline -switch tree the front end is generated from, memoised or
+    not, accepts the text of every well-formed file whose characters are code points other than the end symbol;
+    Execute() over its tokens makes the calls of the file.  (reader_file + optimize_sound + the machine theorems,
+    at the regenerated trees.) *)
+Theorem C10_reader_file_shipped :
+  forall (nm ak : list rune -> nat) penv f memo inline st0,
+  file_ok f -> good_buf (fshow f) -> valid_buf (fshow f) -> slot_ok pegpeg_is inline 0 ->
+  exists n st' nodes,
+    machine pegpeg_is pegpeg_is_ptx (fshow f) penv memo inline n 0 st0 = Some (Ret true st') /\
+    calls_of_tokens pegpeg_is pegpeg_is_ptx (fshow f) (live st') = fcalls f /\
+    frun nm ak (fcalls f) finit = Some {| back := nodes; pend := None; stk := []; pegn := None |} /\
+    file_nodes nm ak f = Some nodes.
+Proof. exact reader_file_shipped. Qed.
+Print Assumptions C10_reader_file_shipped.
 
 (** the lexical layer on its own: any layout is skipped; every spelling of a character is read as its call *)
 Theorem C10_reader_spacing :
